@@ -159,7 +159,7 @@ def run_access(case, ex, tmpbase):
         for s in case['subst']: req['subst:' + s] = SUBST_CONTENT[s]
         try: resp = ex.request(req, timeout=120)
         except xv.ExecutorDied as e: return False, 'executor died rc=%s\n%s' % (e.rc, e.stderr[-3000:]), []
-        if 'EXC\tFOREIGN' in resp: return False, 'foreign exception\n' + resp[-800:], []
+        if xv.has_foreign(resp): return False, 'foreign exception\n' + resp[-800:], []
         d = check_access(case, root, top, files, refs, resp)
         forb, reasons = forbidden_set(case, files)
         labels = ['access', 'scanner:' + c['scanner'], 'resolver:' + c['resolver']] + ['forbid:' + r for r in reasons]
